@@ -88,6 +88,18 @@ CHECKS = {
    text="Zoned values in 19 zones (sub-minute and extreme fixed offsets), dates over-weighted to year boundaries, all specifiers with all flags and widths; strptime(strftime(v)) == v for 21 formats; perturbed weekdays must be rejected; RFC 2822 print/parse incl. obsolete zone names.",
    note="Text layout follows jiff's own documented table (POSIX fidelity is a documented non-goal); only calendar facts are compared with glibc. Listed findings: padding widths > 19 are capped; %A cannot parse 'Tuesday' (typo pinned by a snapshot test).",
    design="DESIGN.md section 3 C16"),
+ "C17": dict(
+   technique="grammar- and structure-aware mutation fuzzing with the oracle inside the target: deterministic proptest mutation engine (quick) and coverage-guided libFuzzer/ASan campaigns on the same targets (thorough)",
+   category="exploration",
+   text="Valid printed values and real/synthetic TZif files are mutated (truncation, digit overflow, sign/separator swaps, long runs, invalid UTF-8; header counts, extreme/unsorted transitions, offsets, designation indexes, hostile footers) and fed to every parser; no panic, Ok values in range and re-printable, accepted zones answer a battery of lookups, peak heap while parsing TZif bounded by a multiple of the input (counting allocator), coarse time-scaling test.",
+   note="A process abort (stack overflow, memory error) is reported through a crash guard that names the running case. 'Work proportional to input' is decided by heap accounting plus a coarse timing test, not a complexity proof. The concatenated-tzdata reader is exercised through C18.",
+   design="DESIGN.md section 3 C17"),
+ "C20": dict(
+   technique="model-based testing of generated handle programs (reference model = payload per handle + allocation model via a counting global allocator), exhaustive enumeration of all fixed offsets, and the same interpreter as a libFuzzer target under AddressSanitizer/LeakSanitizer (thorough)",
+   category="exploration",
+   text="Programs of up to ~150 operations over a pool of TimeZone handles of every kind (UTC, unknown, fixed, POSIX, TZif bytes, static get!) with clone/drop/move-through-Zoned/eq/query/swap and send-to-thread; every live handle must answer like a freshly built zone, equality laws hold, clones and non-last drops do not change live heap blocks, last drops free, nothing leaks; all 187,199 fixed offsets reproduce exactly.",
+   note="Use-after-free/double free proper are caught by ASan in the thorough tier; in the quick tier through the allocation model, wrong answers, or a process abort (crash guard + glibc malloc checking to name the case). Thread interleavings are sampled.",
+   design="DESIGN.md section 3 C20"),
 }
 
 NOT_YET = {
@@ -127,6 +139,8 @@ def main():
             "add_only": True,
         },
         "engines": [
+            {"name": "jv-fuzz", "path": "/verif/fuzz", "serves_properties": ["C17", "C20"],
+             "kind_free_text": "cargo-fuzz (libFuzzer, nightly, AddressSanitizer, debug assertions on) targets that #[path]-include the harness's target/oracle code; driven by tools/fuzz_campaign.sh in the thorough tier"},
             {"name": "jv", "path": "/verif/harness", "serves_properties": [c["property_id"] for c in checks],
              "kind_free_text": "Rust binary driving proptest TestRunner (fixed ChaCha seed from VERIF_SEED, 16 shards, shrinking, JSON replay files), exhaustive sharded sweeps for finite domains, independent reference models (refcal, reftz, wide)"},
         ],
